@@ -206,6 +206,14 @@ func runC01(env *Env) {
 		cases[i] = &PairCase{Seed: rng.Next(), Opts: o}
 		grids[i] = compGrid(rng, env.Thorough())
 	}
+	for _, raw := range corpusCases(env, "C01") {
+		c := &PairCase{}
+		if json.Unmarshal(raw, c) == nil {
+			cases = append([]*PairCase{c}, cases...)
+			grids = append([][]Comp{{{"none", 0}, c.Comp, {"gzip", 1}, {"gzip", 9}, {"brotli", 1}}}, grids...)
+		}
+	}
+	n = len(cases)
 	models := startModels(env)
 	wvlib.ParallelDo(n, env.Workers, func(i int) {
 		m := <-models
